@@ -2,7 +2,8 @@
    weakly.  Read off the source: adjacency entries are `WeakNode` (adjacent.rs) — they contribute
    nothing; `Node` handles, `Edge(Node, Node, E)`, `Path { edges: Vec<Edge> }`, `Vec<Node>` results and
    `Graph { nodes: HashMap<K, Node> }` hold `Node`s, i.e. strong references.
-   A node value is released when its strong count reaches 0.  Definitions only. *)
+   A node value is released when its strong count reaches 0.  The API layer (aop / astep) says which object owns
+   what; the driver builds ledger steps only through it.  Definitions only. *)
 From Gdsl.Model Require Export Base NodeOps Search.
 
 Set Implicit Arguments.
@@ -56,15 +57,6 @@ Section Own.
     let rel := newly_released os' (o_released st) old in
     (mkO (o_heap st) os' (o_released st ++ rel), rel).
 
-  (* Graph::insert(node): the container in slot s additionally owns u (nothing is dropped) *)
-  Definition grow_slot (st : ostate) (s u : nat) : ostate :=
-    mkO (o_heap st)
-        (map (fun p => if Nat.eqb (fst p) s then (fst p, snd p ++ [u]) else p) (o_objs st))
-        (o_released st).
-  (* Graph::remove(key) handing the node out into slot t: the container in slot s stops owning u *)
-  Fixpoint remove_one (u : nat) (l : list nat) : list nat :=
-    match l with [] => [] | x :: r => if Nat.eqb x u then r else x :: remove_one u r end.
-
   Definition set_heap (st : ostate) (h : heap K V E) : ostate := mkO h (o_objs st) (o_released st).
 
   (* Node::new into slot s *)
@@ -79,6 +71,8 @@ Section Own.
   (* what the objects returned by the API own *)
   Definition edge_owns (e : edge E) : list nat := [esrc e; edst e].
   Definition path_owns (p : list (edge E)) : list nat := flat_map edge_owns p.
+  (* a container owns exactly the nodes it binds (Graph { nodes: HashMap<K, Node> }) *)
+  Definition graph_owns (g : list (K * nat)) : list nat := map (@snd K nat) g.
 
   Definition is_released (st : ostate) (u : nat) : bool := existsb (Nat.eqb u) (o_released st).
 
@@ -101,6 +95,31 @@ Section Own.
     match ops with [] => True | o :: r => legal st o /\ legal_run (ostep st o) r end.
   Fixpoint put_ids (ops : list oop) : list nat :=
     match ops with [] => [] | OpPut _ owned :: r => owned ++ put_ids r | OpDrop _ :: r => put_ids r end.
+
+  (* API-level ownership events: what every library call that hands out, stores or drops an object does to the ledger.
+     The extracted driver builds the ledger steps of a history ONLY through aop_oop. *)
+  Inductive aop :=
+  | ANode (s u : nat)                      (* a Node handle to u in slot s: Node::new, clone(), Graph::get / remove, search() *)
+  | AEdge (s : nat) (e : edge E)           (* an Edge(u, v, e) in slot s: iterator item, find_*, Path index *)
+  | APath (s : nat) (p : list (edge E))    (* a Path / Vec<Edge> in slot s *)
+  | ANodes (s : nat) (l : list nat)        (* a Vec<Node> in slot s: search_nodes, scc component, to_vec *)
+  | AGraph (s : nat) (g : list (K * nat))  (* the container in slot s now binds exactly g (new, insert, remove) *)
+  | ADrop (s : nat).
+  Definition aop_oop (a : aop) : oop :=
+    match a with
+    | ANode s u => OpPut s [u]
+    | AEdge s e => OpPut s (edge_owns e)
+    | APath s p => OpPut s (path_owns p)
+    | ANodes s l => OpPut s l
+    | AGraph s g => OpPut s (graph_owns g)
+    | ADrop s => OpDrop s
+    end.
+  (* one API event: the new state and the nodes whose values it releases *)
+  Definition astep (st : ostate) (a : aop) : ostate * list nat :=
+    match aop_oop a with
+    | OpPut s owned => put_slot st s owned
+    | OpDrop s => drop_slot st s
+    end.
 
   (* a node whose adjacency mentions a released node cannot be iterated / searched: upgrade() fails *)
   Definition dangling (st : ostate) (l : list (nat * E)) : bool :=
